@@ -253,6 +253,26 @@ theorem maybeFlush_keeps (C : Crypto) (hC : HashWF C) (bs : Array Bytes) (c : Co
   · -- no flush
     exact ⟨rfl, by simpa [Disk.applyAll] using hN, hwf, fun _ => rfl, rfl, rfl, rfl⟩
 
+/-! ### logged entries -/
+
+/-- what one logged entry is, relative to the abstract log before and after it -/
+inductive EntryStep (C : Crypto) : Abs → Entry → Abs → Prop
+  | append (a : Abs) (batch : List Bytes) (nodes : List Node) (sig : Bytes) (fk : Nat) (hne : batch ≠ []) (hsig : sig.length = 64)
+      (sound : ∀ n ∈ nodes, ∃ d o, n = nodeAt C (a.blocks ++ batch.toArray) d o ∧ (o + 1) * 2 ^ d ≤ a.blocks.size + batch.length)
+      (compl : ∀ d o, a.blocks.size < (o + 1) * 2 ^ d → (o + 1) * 2 ^ d ≤ a.blocks.size + batch.length →
+        nodeAt C (a.blocks ++ batch.toArray) d o ∈ nodes) :
+      EntryStep C a { treeNodes := nodes, treeUpgrade := some ⟨fk, a.blocks.size, a.blocks.size + batch.length, sig⟩,
+                      bitfield := some ⟨false, a.blocks.size, batch.length⟩ } (a.step (.append batch)).1
+  | clear (a : Abs) (s e : Nat) (hse : s < e) :
+      EntryStep C a { bitfield := some ⟨true, s, e - s⟩ } (a.step (.clear s e)).1
+
+
+/-- the entries logged since the last flush lead from the log at that flush to the current one -/
+inductive Trace (C : Crypto) : Abs → List Entry → Abs → Prop
+  | nil (a : Abs) : Trace C a [] a
+  | cons (a a1 a2 : Abs) (e : Entry) (es : List Entry) : EntryStep C a e a1 → Small a1 → Trace C a1 es a2 → Trace C a (e :: es) a2
+
+
 /-! ### reads -/
 
 theorem get_refines (C : Crypto) (c : Core) (d : Disk) (a : Abs) (h : Rep C c d a) (i : Nat) :
@@ -327,6 +347,18 @@ theorem info_refines (C : Crypto) (c : Core) (d : Disk) (a : Abs) (h : Rep C c d
   have hw : c.secret.isSome = true := h.writer
   simp [stepC, Abs.step, Core.info, hlen, hbytes, hcl, hw]
 
+/-- the flush decision at the end of a mutating call keeps `Rep` -/
+theorem maybeFlush_rep (C : Crypto) (hC : HashWF C) (c : Core) (d : Disk) (a : Abs) (h : Rep C c d a) :
+    Rep C c.maybeFlush.1 (d.applyAll c.maybeFlush.2) a := by
+  obtain ⟨k1, k2, k3, k4, k5, k6, k7⟩ := maybeFlush_keeps C hC a.blocks c d h.nodes h.mapwf
+  refine { writer := ?_, tree := ?_, nodes := k2, mapwf := k3, bits := ?_, heldLt := h.heldLt, contig := ?_, data := ?_, small := h.small }
+  · rw [k6]; exact h.writer
+  · rw [k1]; exact h.tree
+  · intro i; rw [k4]; exact h.bits i
+  · rw [k5]; exact ⟨fun i hi => by rw [k4]; exact h.contig.1 i hi, by rw [k4]; exact h.contig.2⟩
+  · rw [k7]; exact h.data
+
+
 /-! ### clear -/
 
 theorem applyAll_nil (d : Disk) : d.applyAll [] = d := rfl
@@ -390,16 +422,16 @@ theorem holeEnd_spec (bf : Bitfield) (fin len : Nat) (hlen : ∀ i, bf.get i = t
     have := hlen i a2
     exact ⟨by simp only; omega, by simp only; omega, fun j h1 h2 => a3 j h1 h2⟩
 
-theorem clear_refines (C : Crypto) (hC : HashWF C) (c : Core) (d : Disk) (a : Abs) (h : Rep C c d a) (s e : Nat)
-    (hv : Valid a (.clear s e)) :
-    (stepC C (c, d) (.clear s e)).2 = (a.step (.clear s e)).2
-      ∧ Rep C (stepC C (c, d) (.clear s e)).1.1 (stepC C (c, d) (.clear s e)).1.2 (a.step (.clear s e)).1 := by
-  by_cases hge : s ≥ e
-  · have e1 : stepC C (c, d) (.clear s e) = ((c, d), Obs.cleared) := by
-      simp [stepC, Core.clear, hge, obsOf, Disk.applyAll]
-    have e2 : a.step (.clear s e) = (a, Obs.cleared) := by simp [Abs.step, hge]
-    rw [e1, e2]
-    exact ⟨rfl, h⟩
+/-- a `clear` (with `start < end`) up to its flush decision -/
+theorem clear_shape (C : Crypto) (c : Core) (d : Disk) (a : Abs) (h : Rep C c d a) (s e : Nat)
+    (hse0 : s < e) (hv : Valid a (.clear s e)) :
+    ∃ (c1 : Core) (j01 : List SOp),
+      stepC C (c, d) (.clear s e) = ((c1.maybeFlush.1, d.applyAll (j01 ++ c1.maybeFlush.2)), Obs.cleared)
+      ∧ Rep C c1 (d.applyAll j01) (a.step (.clear s e)).1
+      ∧ (d.applyAll j01).tree = d.tree ∧ (d.applyAll j01).bitfield = d.bitfield
+      ∧ c1.bitfield = c.bitfield.setRange s (e - s) false
+      ∧ c1.header.tree = c.header.tree ∧ c1.header.secret = c.header.secret ∧ c1.secret = c.secret := by
+  have hge : ¬ s ≥ e := by omega
   have hse : s < e := by omega
   have hsn : s < a.blocks.size := hv hse
   -- names for the intermediate values of `Core.clear`
@@ -469,19 +501,14 @@ theorem clear_refines (C : Crypto) (hC : HashWF C) (c : Core) (d : Disk) (a : Ab
   have hstep : stepC C (c, d) (.clear s e) =
       ((c1.maybeFlush.1, d.applyAll (ent.2 ++ j2 ++ c1.maybeFlush.2)), Obs.cleared) := by
     simp only [stepC, Core.clear, hge, ite_false, hbf, hs', he', hoff, he0, hrng, hnopanic, hent, hj2, hhd, hc1, obsOf]
-  rw [hstep]
   have habs : a.step (.clear s e) = ({ a with held := held' }, Obs.cleared) := by
     simp only [Abs.step, hge, ite_false]
     rfl
-  rw [habs]
-  refine ⟨rfl, ?_⟩
   -- the disk before the flush
-  have hsplit : d.applyAll (ent.2 ++ j2 ++ c1.maybeFlush.2) = ((d.applyAll ent.2).applyAll j2).applyAll c1.maybeFlush.2 := by
-    rw [Journal.applyAll_append, Journal.applyAll_append]
+  have hsplit : d.applyAll (ent.2 ++ j2) = (d.applyAll ent.2).applyAll j2 := by
+    rw [Journal.applyAll_append]
   have hd2tree : ((d.applyAll ent.2).applyAll j2).tree = d.tree := by
     rw [tree_of_applyAll _ _ (fun op hop => by rw [hj2store op hop]; decide), hd1tree]
-  obtain ⟨k1, k2, k3, k4, k5, k6, k7⟩ := maybeFlush_keeps C hC a.blocks c1 ((d.applyAll ent.2).applyAll j2)
-    (by rw [c1tree, hd2tree]; exact h.nodes) (by rw [c1tree]; exact h.mapwf)
   -- data store after `j2`
   have hdata2 : ∀ i, held' i = true → ∀ k, k < sz a.blocks i →
       psum a.blocks i + k < ((d.applyAll ent.2).applyAll j2).data.size
@@ -507,24 +534,53 @@ theorem clear_refines (C : Crypto) (hC : HashWF C) (c : Core) (d : Disk) (a : Ab
       rw [hdel]
       simp only [Option.getD_some]
       exact data_after_del a.blocks a.held held' d.data g s' e' h.data hsub hhole (by omega) hdel
-  refine { writer := ?_, tree := ?_, nodes := ?_, mapwf := k3, bits := ?_, heldLt := ?_, contig := ?_, data := ?_, small := h.small }
-  · rw [k6, c1sec]; exact h.writer
-  · rw [k1, c1tree]; exact h.tree
-  · rw [hsplit]; exact k2
-  · intro i; rw [k4, c1bf]; exact hbits' i
-  · intro i hi
-    have : a.held i = true := by simp [held'] at hi; exact hi.1
-    exact h.heldLt i this
-  · have hspec := updateContiguous_spec c.header c.bitfield ⟨true, s, e - s⟩ h.contig (by simp; omega)
-    simp only [Bool.not_true] at hspec
-    rw [hbf] at hspec
-    have hrule : (updateContiguous c.header bf ⟨true, s, e - s⟩).contiguous
-        = (if s < c.header.contiguous then { c.header with contiguous := s } else c.header).contiguous := by
-      simp only [updateContiguous]
-      split <;> simp_all
-    rw [hrule, ← c1hdr, ← c1bf, ← k5] at hspec
-    exact ⟨fun i hi => by rw [k4]; exact hspec.1 i hi, by rw [k4]; exact hspec.2⟩
-  · rw [hsplit, k7]; exact hdata2
+  have hd2bf : ((d.applyAll ent.2).applyAll j2).bitfield = d.bitfield := by
+    have e1 := Journal.applyAll_other (d.applyAll ent.2) j2 .bitfield (fun op hop => by rw [hj2store op hop]; decide)
+    have e2 := Journal.applyAll_other d ent.2 .bitfield (fun op hop => by rw [hj1 op hop]; decide)
+    simp only [Disk.get] at e1 e2
+    rw [e1, e2]
+  refine ⟨c1, ent.2 ++ j2, ?_, ?_, ?_, ?_, c1bf, ?_, ?_, c1sec⟩
+  · rw [hstep, List.append_assoc]
+  · rw [habs, hsplit]
+    refine { writer := ?_, tree := ?_, nodes := ?_, mapwf := ?_, bits := ?_, heldLt := ?_, contig := ?_, data := hdata2, small := h.small }
+    · rw [c1sec]; exact h.writer
+    · rw [c1tree]; exact h.tree
+    · rw [c1tree, hd2tree]; exact h.nodes
+    · rw [c1tree]; exact h.mapwf
+    · intro i; rw [c1bf]; exact hbits' i
+    · intro i hi
+      have : a.held i = true := by simp [held'] at hi; exact hi.1
+      exact h.heldLt i this
+    · have hspec := updateContiguous_spec c.header c.bitfield ⟨true, s, e - s⟩ h.contig (by simp; omega)
+      simp only [Bool.not_true] at hspec
+      rw [hbf] at hspec
+      have hrule : (updateContiguous c.header bf ⟨true, s, e - s⟩).contiguous
+          = (if s < c.header.contiguous then { c.header with contiguous := s } else c.header).contiguous := by
+        simp only [updateContiguous]
+        split <;> simp_all
+      rw [hrule, ← c1hdr, ← c1bf] at hspec
+      exact hspec
+  · rw [hsplit]; exact hd2tree
+  · rw [hsplit]; exact hd2bf
+  · rw [c1hdr]; split <;> rfl
+  · rw [c1hdr]; split <;> rfl
+
+theorem clear_refines (C : Crypto) (hC : HashWF C) (c : Core) (d : Disk) (a : Abs) (h : Rep C c d a) (s e : Nat)
+    (hv : Valid a (.clear s e)) :
+    (stepC C (c, d) (.clear s e)).2 = (a.step (.clear s e)).2
+      ∧ Rep C (stepC C (c, d) (.clear s e)).1.1 (stepC C (c, d) (.clear s e)).1.2 (a.step (.clear s e)).1 := by
+  by_cases hge : s ≥ e
+  · have e1 : stepC C (c, d) (.clear s e) = ((c, d), Obs.cleared) := by
+      simp [stepC, Core.clear, hge, obsOf, Disk.applyAll]
+    have e2 : a.step (.clear s e) = (a, Obs.cleared) := by simp [Abs.step, hge]
+    rw [e1, e2]
+    exact ⟨rfl, h⟩
+  obtain ⟨c1, j01, hstep, hrep, _⟩ := clear_shape C c d a h s e (by omega) hv
+  have hfl := maybeFlush_rep C hC c1 (d.applyAll j01) _ hrep
+  rw [hstep]
+  refine ⟨?_, ?_⟩
+  · simp only [Abs.step, hge, ite_false]
+  · rw [Journal.applyAll_append]; exact hfl
 
 /-! ### append -/
 
@@ -577,19 +633,38 @@ theorem entryOf_contig (cs : Changeset) (bu : Option BitfieldUpdate) (h : Header
 theorem sz_append_lt (bs : Array Bytes) (l : List Bytes) (i : Nat) (h : i < bs.size) : sz (bs ++ l.toArray) i = sz bs i := by
   simp only [sz, getD_append_lt bs l i h]
 
-theorem append_refines (C : Crypto) (hC : HashWF C) (c : Core) (d : Disk) (a : Abs) (h : Rep C c d a) (batch : List Bytes)
-    (hv : Valid a (.append batch)) :
-    (stepC C (c, d) (.append batch)).2 = (a.step (.append batch)).2
-      ∧ Rep C (stepC C (c, d) (.append batch)).1.1 (stepC C (c, d) (.append batch)).1.2 (a.step (.append batch)).1 := by
+theorem fold_upgraded (C : Crypto) (batch : List Bytes) (hne : batch ≠ []) (cs : Changeset) :
+    (batch.foldl (Tree.append C) cs).upgraded = true ∧ (batch.foldl (Tree.append C) cs).fork = cs.fork := by
+  induction batch generalizing cs with
+  | nil => exact absurd rfl hne
+  | cons b rest ih =>
+    simp only [List.foldl_cons]
+    cases rest with
+    | nil => simp [Tree.append, Tree.appendRoot]
+    | cons r rs =>
+      obtain ⟨i1, i2⟩ := ih (by simp) (Tree.append C cs b)
+      exact ⟨i1, by rw [i2]; simp [Tree.append, Tree.appendRoot]⟩
+
+/-- signatures are 64 bytes (Ed25519) -/
+def SignWF (C : Crypto) : Prop := ∀ seed msg, (C.sign seed msg).length = 64
+
+/-- a non-empty `append_batch` up to its flush decision: the state `c1`, the journal `j01` (data write and
+    oplog entry), the logged entry -/
+theorem append_shape (C : Crypto) (hC : HashWF C) (c : Core) (d : Disk) (a : Abs) (h : Rep C c d a)
+    (batch : List Bytes) (hne : batch ≠ []) (hv : Valid a (.append batch)) :
+    ∃ (c1 : Core) (j01 : List SOp) (entry : Entry),
+      stepC C (c, d) (.append batch) = ((c1.maybeFlush.1, d.applyAll (j01 ++ c1.maybeFlush.2)),
+        Obs.appended c1.maybeFlush.1.tree.length c1.maybeFlush.1.tree.byteLength)
+      ∧ Rep C c1 (d.applyAll j01) (a.step (.append batch)).1
+      ∧ (d.applyAll j01).tree = d.tree ∧ (d.applyAll j01).bitfield = d.bitfield
+      ∧ c1.bitfield = c.bitfield.setRange a.blocks.size batch.length true
+      ∧ (SignWF C → EntryStep C a entry (a.step (.append batch)).1)
+      ∧ c1.header.tree.length = a.blocks.size + batch.length ∧ (SignWF C → c1.header.tree.signature.length = 64)
+      ∧ c1.header.secret = c.header.secret ∧ c1.secret = c.secret := by
   obtain ⟨seed, hseed⟩ : ∃ seed, c.secret = some seed := Option.isSome_iff_exists.mp h.writer
   have hlen : c.tree.length = a.blocks.size := h.tree.length
   have hbytes : c.tree.byteLength = totalBytes a.blocks := h.tree.bytes
-  by_cases hemp : batch.isEmpty = true
-  · have e1 : stepC C (c, d) (.append batch) = ((c, d), Obs.appended a.blocks.size (totalBytes a.blocks)) := by
-      simp [stepC, Core.appendBatch, hseed, hemp, obsOf, Disk.applyAll, hlen, hbytes]
-    have e2 : a.step (.append batch) = (a, Obs.appended a.blocks.size (totalBytes a.blocks)) := by simp [Abs.step, hemp]
-    rw [e1, e2]; exact ⟨rfl, h⟩
-  have hne : batch ≠ [] := by intro e; apply hemp; simp [e]
+  have hemp : ¬ batch.isEmpty = true := by cases batch with | nil => exact absurd rfl hne | cons _ _ => simp
   have hk : 0 < batch.length := List.length_pos_iff.mpr hne
   -- the abstract successor
   let n := a.blocks.size
@@ -670,7 +745,29 @@ theorem append_refines (C : Crypto) (hC : HashWF C) (c : Core) (d : Disk) (a : A
         Obs.appended c1.maybeFlush.1.tree.length c1.maybeFlush.1.tree.byteLength) := by
     simp only [stepC, Core.appendBatch, hseed, hemp, Bool.false_eq_true, ite_false, hcs0, hcs, hanc, hbl, heo, hbf, hhd2,
       hent, hcommit, hc1, obsOf]
-  rw [hstep, habs]
+  -- the logged entry
+  have hup : cs.upgraded = true ∧ cs.fork = c.tree.fork := by
+    rw [← hcs, ← hcs0]; exact fold_upgraded C batch hne _
+  have hcslen : cs.length = n + batch.length := by
+    rw [← hcs]; simp only [hashAndSign]; rw [hroots0.length, hsize']
+  obtain ⟨sig, hsigv, hsiglen⟩ : ∃ sig, cs.signature = some sig ∧ (SignWF C → sig.length = 64) := by
+    rw [← hcs]; exact ⟨_, rfl, fun hS => hS _ _⟩
+  have hentry : entry = { treeNodes := cs0.nodes, treeUpgrade := some ⟨c.tree.fork, n, n + batch.length, sig⟩, bitfield := some ⟨false, n, batch.length⟩ } := by
+    have := congrArg Prod.fst heo
+    simp only [entryOf, hup.1, ite_true, hsigv, Option.getD_some, hup.2, hanc, hcslen, hnodes] at this
+    exact this.symm
+  have hhd1 : hd1.tree.length = n + batch.length ∧ hd1.tree.signature = sig ∧ hd1.secret = c.header.secret := by
+    have := congrArg Prod.snd heo
+    simp only [entryOf, hup.1, ite_true, hsigv, Option.getD_some, hcslen] at this
+    rw [← this]; exact ⟨rfl, rfl, rfl⟩
+  have hhd2' : hd2.tree = hd1.tree ∧ hd2.secret = hd1.secret := by
+    rw [← hhd2]; simp only [updateContiguous]; split <;> (try split) <;> exact ⟨rfl, rfl⟩
+  obtain ⟨added, eadd, sound, compl⟩ := appendMany_nodes C batch a.blocks c.tree.changeset h.tree
+  rw [hcs0] at eadd
+  have hadded : ∀ x, x ∈ cs0.nodes ↔ x ∈ added := by
+    intro x
+    have : cs0.rnodes = added := by simpa [Tree.changeset] using eadd
+    simp [Changeset.nodes, this]
   -- the disk before the flush
   generalize hd0 : d.apply (SOp.write .data c.tree.byteLength batch.flatten) = d0
   have hd0data : d0.data = d.data.write c.tree.byteLength batch.flatten := by
@@ -681,71 +778,113 @@ theorem append_refines (C : Crypto) (hC : HashWF C) (c : Core) (d : Disk) (a : A
     rw [← hd0]
     have := Journal.apply_get d (SOp.write .data c.tree.byteLength batch.flatten) .tree
     simpa [SOp.store, SOp.onFile, Disk.get] using this
-  have hsplit : d.applyAll ([SOp.write .data c.tree.byteLength batch.flatten] ++ ent.2 ++ c1.maybeFlush.2)
-      = (d0.applyAll ent.2).applyAll c1.maybeFlush.2 := by
-    rw [Journal.applyAll_append, Journal.applyAll_append, applyAll_one, hd0]
+  have hsplit : d.applyAll ([SOp.write .data c.tree.byteLength batch.flatten] ++ ent.2) = d0.applyAll ent.2 := by
+    rw [Journal.applyAll_append, applyAll_one, hd0]
   have hd1tree : (d0.applyAll ent.2).tree = d.tree := by
     rw [tree_of_applyAll _ _ (fun op hop => by rw [hj1 op hop]; decide), hd0tree]
   have hd1data : (d0.applyAll ent.2).data = d.data.write c.tree.byteLength batch.flatten := by
     rw [data_of_applyAll _ _ (fun op hop => by rw [hj1 op hop]; decide), hd0data]
-  obtain ⟨k1, k2, k3, k4, k5, k6, k7⟩ := maybeFlush_keeps C hC bs' c1 (d0.applyAll ent.2)
-    (by rw [c1tree, hd1tree]; exact hN') (by rw [c1tree]; exact hwf')
-  have hT'' : RootsOK C bs' c1.maybeFlush.1.tree.changeset := by rw [k1, c1tree]; exact hT'
-  have hlen' : c1.maybeFlush.1.tree.length = bs'.size := hT''.length
-  have hbytes' : c1.maybeFlush.1.tree.byteLength = totalBytes bs' := hT''.bytes
-  refine ⟨by rw [hlen', hbytes'], ?_⟩
+  have hd0bf : d0.bitfield = d.bitfield := by
+    rw [← hd0]
+    have := Journal.apply_get d (SOp.write .data c.tree.byteLength batch.flatten) .bitfield
+    simpa [SOp.store, SOp.onFile, Disk.get] using this
+  have hd1bf : (d0.applyAll ent.2).bitfield = d.bitfield := by
+    have := Journal.applyAll_other d0 ent.2 .bitfield (fun op hop => by rw [hj1 op hop]; decide)
+    simp only [Disk.get] at this
+    rw [this]; exact hd0bf
   have hT : c.tree.byteLength = psum a.blocks n := by rw [hbytes, ← psum_total]
-  refine { writer := ?_, tree := hT'', nodes := ?_, mapwf := k3, bits := ?_, heldLt := ?_, contig := ?_, data := ?_, small := ?_ }
-  · rw [k6, c1sec]; exact h.writer
-  · rw [hsplit]; exact k2
-  · intro i; rw [k4, c1bf]; exact hbits' i
-  · intro i hi
-    simp only [held', Bool.or_eq_true, Bool.and_eq_true, decide_eq_true_eq] at hi
-    rcases hi with hi | hi
-    · have := h.heldLt i hi; rw [hsize']; omega
-    · rw [hsize']; omega
-  · rw [k5, c1hdr]
-    exact ⟨fun i hi => by rw [k4, c1bf]; exact hcontig'.1 i hi, by rw [k4, c1bf]; exact hcontig'.2⟩
-  · rw [hsplit, k7, hd1data]
-    intro i hi kk hkk
-    simp only [held', Bool.or_eq_true, Bool.and_eq_true, decide_eq_true_eq] at hi
-    by_cases hin : i < n
-    · -- an old block: below the write
-      have hold : a.held i = true := by
-        rcases hi with hi | hi
-        · exact hi
-        · omega
-      have e1 : psum bs' i = psum a.blocks i := psum_append_le a.blocks batch i (by omega)
-      have e2 : sz bs' i = sz a.blocks i := sz_append_lt a.blocks batch i hin
-      have e3 : bs'.getD i [] = a.blocks.getD i [] := getD_append_lt a.blocks batch i hin
-      rw [e2] at hkk
-      obtain ⟨o1, o2⟩ := h.data i hold kk hkk
-      have h1 := psum_succ_gt a.blocks i kk hkk
-      have h2 := psum_mono a.blocks (show i + 1 ≤ n by omega)
-      rw [e1, e3, File.size_write, File.byte_write]
-      have : ¬ (c.tree.byteLength ≤ psum a.blocks i + kk ∧ psum a.blocks i + kk < c.tree.byteLength + batch.flatten.length) := by omega
-      simp only [this, ite_false]
-      exact ⟨by omega, o2⟩
-    · -- a block of the batch
-      have hnew : n ≤ i ∧ i < n + batch.length := by
-        rcases hi with hi | hi
-        · have := h.heldLt i hi; omega
-        · exact hi
-      obtain ⟨j, rfl⟩ : ∃ j, i = n + j := ⟨i - n, by omega⟩
-      have e1 : psum bs' (n + j) = psum a.blocks n + ((batch.take j).map List.length).sum := psum_append_new a.blocks batch j
-      have e3 : bs'.getD (n + j) [] = batch.getD j [] := getD_append_ge a.blocks batch j
-      have e2 : sz bs' (n + j) = (batch.getD j []).length := by simp only [sz, e3]
-      rw [e2] at hkk
-      obtain ⟨f1, f2⟩ := flatten_getD batch j kk hkk
-      rw [e1, e3, File.size_write, File.byte_write, hT]
-      have : psum a.blocks n ≤ psum a.blocks n + ((batch.take j).map List.length).sum + kk
-          ∧ psum a.blocks n + ((batch.take j).map List.length).sum + kk < psum a.blocks n + batch.flatten.length := by omega
-      simp only [this, and_self, ite_true]
-      refine ⟨by omega, ?_⟩
-      have e4 : psum a.blocks n + ((batch.take j).map List.length).sum + kk - psum a.blocks n
-          = ((batch.take j).map List.length).sum + kk := by omega
-      rw [e4]; exact f2
-  · exact ⟨by rw [hsize']; exact hv.1, hv.2⟩
+  refine ⟨c1, [SOp.write .data c.tree.byteLength batch.flatten] ++ ent.2, entry, ?_, ?_, ?_, ?_, ?_, ?_, ?_, ?_, ?_, c1sec⟩
+  · rw [hstep, List.append_assoc]
+  · rw [habs, hsplit]
+    refine { writer := ?_, tree := ?_, nodes := ?_, mapwf := ?_, bits := ?_, heldLt := ?_, contig := ?_, data := ?_, small := ?_ }
+    · rw [c1sec]; exact h.writer
+    · rw [c1tree]; exact hT'
+    · rw [c1tree, hd1tree]; exact hN'
+    · rw [c1tree]; exact hwf'
+    · intro i; rw [c1bf]; exact hbits' i
+    · intro i hi
+      simp only [held', Bool.or_eq_true, Bool.and_eq_true, decide_eq_true_eq] at hi
+      rcases hi with hi | hi
+      · have := h.heldLt i hi; rw [hsize']; omega
+      · rw [hsize']; omega
+    · rw [c1hdr, c1bf]; exact hcontig'
+    · rw [hd1data]
+      intro i hi kk hkk
+      simp only [held', Bool.or_eq_true, Bool.and_eq_true, decide_eq_true_eq] at hi
+      by_cases hin : i < n
+      · -- an old block: below the write
+        have hold : a.held i = true := by
+          rcases hi with hi | hi
+          · exact hi
+          · omega
+        have e1 : psum bs' i = psum a.blocks i := psum_append_le a.blocks batch i (by omega)
+        have e2 : sz bs' i = sz a.blocks i := sz_append_lt a.blocks batch i hin
+        have e3 : bs'.getD i [] = a.blocks.getD i [] := getD_append_lt a.blocks batch i hin
+        rw [e2] at hkk
+        obtain ⟨o1, o2⟩ := h.data i hold kk hkk
+        have h1 := psum_succ_gt a.blocks i kk hkk
+        have h2 := psum_mono a.blocks (show i + 1 ≤ n by omega)
+        rw [e1, e3, File.size_write, File.byte_write]
+        have : ¬ (c.tree.byteLength ≤ psum a.blocks i + kk ∧ psum a.blocks i + kk < c.tree.byteLength + batch.flatten.length) := by omega
+        simp only [this, ite_false]
+        exact ⟨by omega, o2⟩
+      · -- a block of the batch
+        have hnew : n ≤ i ∧ i < n + batch.length := by
+          rcases hi with hi | hi
+          · have := h.heldLt i hi; omega
+          · exact hi
+        obtain ⟨j, rfl⟩ : ∃ j, i = n + j := ⟨i - n, by omega⟩
+        have e1 : psum bs' (n + j) = psum a.blocks n + ((batch.take j).map List.length).sum := psum_append_new a.blocks batch j
+        have e3 : bs'.getD (n + j) [] = batch.getD j [] := getD_append_ge a.blocks batch j
+        have e2 : sz bs' (n + j) = (batch.getD j []).length := by simp only [sz, e3]
+        rw [e2] at hkk
+        obtain ⟨f1, f2⟩ := flatten_getD batch j kk hkk
+        rw [e1, e3, File.size_write, File.byte_write, hT]
+        have : psum a.blocks n ≤ psum a.blocks n + ((batch.take j).map List.length).sum + kk
+            ∧ psum a.blocks n + ((batch.take j).map List.length).sum + kk < psum a.blocks n + batch.flatten.length := by omega
+        simp only [this, and_self, ite_true]
+        refine ⟨by omega, ?_⟩
+        have e4 : psum a.blocks n + ((batch.take j).map List.length).sum + kk - psum a.blocks n
+            = ((batch.take j).map List.length).sum + kk := by omega
+        rw [e4]; exact f2
+
+    · exact ⟨by rw [hsize']; exact hv.1, hv.2⟩
+  · rw [hsplit]; exact hd1tree
+  · rw [hsplit]; exact hd1bf
+  · rw [c1bf, ← hbf]
+  · intro hS
+    rw [habs, hentry]
+    have := EntryStep.append (C := C) a batch cs0.nodes sig c.tree.fork hne (hsiglen hS)
+      (fun x hx => sound x ((hadded x).mp hx)) (fun dd o h1 h2 => (hadded _).mpr (compl dd o h1 h2))
+    rw [habs] at this
+    exact this
+  · rw [c1hdr, hhd2'.1, hhd1.1]
+  · intro hS; rw [c1hdr, hhd2'.1, hhd1.2.1]; exact hsiglen hS
+  · rw [c1hdr, hhd2'.2, hhd1.2.2]
+
+theorem append_refines (C : Crypto) (hC : HashWF C) (c : Core) (d : Disk) (a : Abs) (h : Rep C c d a) (batch : List Bytes)
+    (hv : Valid a (.append batch)) :
+    (stepC C (c, d) (.append batch)).2 = (a.step (.append batch)).2
+      ∧ Rep C (stepC C (c, d) (.append batch)).1.1 (stepC C (c, d) (.append batch)).1.2 (a.step (.append batch)).1 := by
+  obtain ⟨seed, hseed⟩ : ∃ seed, c.secret = some seed := Option.isSome_iff_exists.mp h.writer
+  have hlen : c.tree.length = a.blocks.size := h.tree.length
+  have hbytes : c.tree.byteLength = totalBytes a.blocks := h.tree.bytes
+  by_cases hemp : batch.isEmpty = true
+  · have e1 : stepC C (c, d) (.append batch) = ((c, d), Obs.appended a.blocks.size (totalBytes a.blocks)) := by
+      simp [stepC, Core.appendBatch, hseed, hemp, obsOf, Disk.applyAll, hlen, hbytes]
+    have e2 : a.step (.append batch) = (a, Obs.appended a.blocks.size (totalBytes a.blocks)) := by simp [Abs.step, hemp]
+    rw [e1, e2]; exact ⟨rfl, h⟩
+  have hne : batch ≠ [] := by intro e; apply hemp; simp [e]
+  obtain ⟨c1, j01, entry, hstep, hrep, _⟩ := append_shape C hC c d a h batch hne hv
+  have hfl := maybeFlush_rep C hC c1 (d.applyAll j01) _ hrep
+  rw [hstep]
+  have habs : (a.step (.append batch)).2 = Obs.appended (a.step (.append batch)).1.blocks.size (totalBytes (a.step (.append batch)).1.blocks) := by
+    simp only [Abs.step, hemp]; rfl
+  refine ⟨?_, ?_⟩
+  · have l1 : c1.maybeFlush.1.tree.length = (a.step (.append batch)).1.blocks.size := hfl.tree.length
+    have l2 : c1.maybeFlush.1.tree.byteLength = totalBytes (a.step (.append batch)).1.blocks := hfl.tree.bytes
+    rw [habs]; simp only [l1, l2]
+  · rw [Journal.applyAll_append]; exact hfl
 
 /-! ### the freshly created core -/
 
